@@ -160,6 +160,9 @@ Fixpoint nodupb (l : list N) : bool :=
   match l with [] => true | x :: t => negb (memN x t) && nodupb t end.
 Definition scripts_available (t : tx_ops) (e : emitted) : bool :=
   forallb (fun i => item_script_available e i && item_plutus_data e i) (script_items t)
+  (* a datum registered with add_extra_witness_datum is needed by some input: it is there, once (datums are
+     identified by their bytes, i.e. by their hash: equal values in different encodings are different datums) *)
+  && forallb (fun d => countN d (e_datums e) =? 1) (t_extra_datums t)
   && nodupb (e_native e) && nodupb (e_plutus e) && nodupb (e_datums e) && nodupb (e_refs e).
 Definition scripts_not_twice (t : tx_ops) (e : emitted) : bool :=
   forallb (item_script_not_twice e) (script_items t).
